@@ -464,6 +464,7 @@ type run10 struct {
 	series map[Ser]bool
 	hot    map[string]map[int64]bool // composite key -> times currently in the hot cache
 	hit    bool                      // a delete ran while an in-flight snapshot held matching points
+	retained map[string]map[int64]bool // snapshot the cache retained after a failed flush (nil: none)
 	nobs   int
 	nvals  int
 	obsLog []string
@@ -534,6 +535,19 @@ func (r *run10) seriesOf(m string, only []Ser) []Ser {
 
 // doDelete runs a range delete through Store.DeleteSeries and records the model steps
 func (r *run10) doDelete(op Op, snapshotInFlight map[string]map[int64]bool) error {
+	xs, all, err := r.deleteCalls(op)
+	if err != nil {
+		return err
+	}
+	r.xs = append(r.xs, xs...)
+	r.deleteBook(op, all, snapshotInFlight)
+	return nil
+}
+
+// deleteCalls issues the Store.DeleteSeries calls of one delete operation and returns the
+// model steps they stand for.  It only reads the run's bookkeeping, so it may run on its own
+// goroutine while the main goroutine sits inside WriteSnapshot.
+func (r *run10) deleteCalls(op Op) (xs []string, all []Ser, err error) {
 	lo, hi := op.Lo, op.Hi
 	type call struct {
 		sources []influxql.Source
@@ -541,7 +555,6 @@ func (r *run10) doDelete(op Op, snapshotInFlight map[string]map[int64]bool) erro
 		groups  [][]Ser // per engine delete (one per measurement, in name order)
 	}
 	var calls []call
-	var all []Ser
 	switch op.I {
 	case 1: // whole measurement(s)
 		seen := map[string]bool{}
@@ -591,21 +604,30 @@ func (r *run10) doDelete(op Op, snapshotInFlight map[string]map[int64]bool) erro
 			var err error
 			cond, err = influxql.ParseExpr(c.cond)
 			if err != nil {
-				return err
+				return nil, nil, err
 			}
 		}
 		if err := guard(func() error { return r.w.st.DeleteSeries("db0", c.sources, cond) }); err != nil {
-			return fmt.Errorf("delete: %v", err)
+			return nil, nil, fmt.Errorf("delete: %v", err)
 		}
 		for _, g := range c.groups {
 			if len(g) == 0 {
 				continue
 			}
-			r.xs = append(r.xs, fmt.Sprintf("XDelete %s %s %s", coqSeries(g), hx.CoqZ(lo), hx.CoqZ(hi)))
+			xs = append(xs, fmt.Sprintf("XDelete %s %s %s", coqSeries(g), hx.CoqZ(lo), hx.CoqZ(hi)))
 		}
 	}
-	r.xs = append(r.xs, fmt.Sprintf("XHist (HAck (ODelete %s %s %s))", hx.CoqList(r.keysOfSeries(all)), hx.CoqZ(lo), hx.CoqZ(hi)))
-	// bookkeeping: the hot cache loses the range; an in-flight snapshot is not touched by the code
+	xs = append(xs, fmt.Sprintf("XHist (HAck (ODelete %s %s %s))", hx.CoqList(r.keysOfSeries(all)), hx.CoqZ(lo), hx.CoqZ(hi)))
+	return xs, all, nil
+}
+
+// deleteBook: the hot cache loses the range; a delete that completed while a snapshot was in
+// flight (snapshotInFlight != nil) and matched a point of it is the shape Engine.snapshotMu excludes
+func (r *run10) deleteBook(op Op, all []Ser, snapshotInFlight map[string]map[int64]bool) {
+	lo, hi := op.Lo, op.Hi
+	if len(all) > 0 {
+		r.retained = nil // deleteSeriesRange writes a retained snapshot out before it deletes
+	}
 	match := func(k string) bool {
 		p := r.keys[k]
 		for _, s := range all {
@@ -646,7 +668,6 @@ func (r *run10) doDelete(op Op, snapshotInFlight map[string]map[int64]bool) erro
 	default:
 		count(r.o, "del:range-closed")
 	}
-	return nil
 }
 
 func (r *run10) observe() {
@@ -885,18 +906,66 @@ func runHist10(o *hx.Out, d Desc10, origin string) {
 		switch op.K {
 		case "w":
 			err = r.write(op)
+		case "snapfail":
+			// a cache snapshot whose TSM write fails: the cache retains it (Compactor snapshots
+			// disabled for this one call); the next snapshot - or the next delete - writes it out
+			r.xs = append(r.xs, "XS SnapBegin")
+			r.w.eng.Compactor.DisableSnapshots()
+			e2 := guard(func() error { return r.w.eng.WriteSnapshot() })
+			r.w.eng.Compactor.EnableSnapshots()
+			r.xs = append(r.xs, "XTry SnapFail")
+			if e2 == nil {
+				count(r.o, "op:snapfail-empty")
+			} else {
+				count(r.o, "op:snapfail")
+				if r.retained == nil {
+					r.retained = r.hot
+					r.hot = map[string]map[int64]bool{}
+				}
+			}
 		case "snap", "snapdel":
 			r.xs = append(r.xs, "XS SnapBegin")
 			inflight := r.hot
-			r.hot = map[string]map[int64]bool{}
+			if r.retained != nil {
+				// the retained snapshot is the one written; the hot cache stays
+				inflight = r.retained
+				r.retained = nil
+			} else {
+				r.hot = map[string]map[int64]bool{}
+			}
 			fired := false
+			type delRes struct {
+				xs  []string
+				all []Ser
+				err error
+			}
+			var delDone chan delRes
 			if op.K == "snapdel" {
 				tsm1.SetVerifPoint(func(name string, args ...interface{}) {
 					if name == "snapshot.written" && !fired {
 						fired = true
 						r.xs = append(r.xs, "XS SnapWriteTmp")
-						if e := r.doDelete(op, inflight); e != nil {
-							err = e
+						// the delete is issued by another client while the snapshot is in flight
+						// (its file written, not yet installed).  Engine.snapshotMu must hold it
+						// back until the snapshot is committed.
+						delDone = make(chan delRes, 1)
+						go func() {
+							xs, all, e := r.deleteCalls(op)
+							delDone <- delRes{xs, all, e}
+						}()
+						select {
+						case d := <-delDone:
+							// it ran inside the in-flight snapshot
+							delDone = nil
+							count(r.o, "snapdel:ran-in-flight")
+							if d.err != nil {
+								err = d.err
+							} else {
+								r.xs = append(r.xs, d.xs...)
+								r.deleteBook(op, d.all, inflight)
+							}
+						case <-time.After(150 * time.Millisecond):
+							count(r.o, "snapdel:held-back")
 						}
 					}
 				})
@@ -907,6 +976,19 @@ func runHist10(o *hx.Out, d Desc10, origin string) {
 				err = fmt.Errorf("snapshot: %v", e2)
 			}
 			r.xs = append(r.xs, "XSnapRest")
+			if delDone != nil {
+				select {
+				case d := <-delDone:
+					if d.err != nil {
+						err = d.err
+					} else {
+						r.xs = append(r.xs, d.xs...)
+						r.deleteBook(op, d.all, nil)
+					}
+				case <-time.After(60 * time.Second):
+					panic("a delete held back by an in-flight snapshot never completed after the snapshot was committed")
+				}
+			}
 			if op.K == "snapdel" && !fired && err == nil {
 				err = r.doDelete(op, nil) // nothing was in the cache: the delete runs after the (empty) snapshot
 			}
@@ -1161,6 +1243,8 @@ func (g *gen) history(n int, known bool) []Op {
 			if known && !placed && len(ops) >= 2 {
 				ops = append(ops, g.del("snapdel"))
 				placed = true
+			} else if x >= 77 {
+				ops = append(ops, Op{K: "snapfail"})
 			} else {
 				ops = append(ops, Op{K: "snap"})
 			}
@@ -1300,6 +1384,12 @@ func designed(o *hx.Out) {
 	runHist10(o, Desc10{Ops: []Op{w(a1, a2, b1), {K: "snap"}, w(a3), {K: "snap"}, {K: "ovl", Series: []Ser{{"m0", "a"}, {"m0", "b"}}, Lo: 1, Hi: 2}, {K: "restart"}, w(a1), {K: "restart"}}}, "designed")
 	// the known shape: a delete while the snapshot holding the points is in flight
 	runHist10(o, Desc10{Ops: []Op{w(a1, a2), {K: "snapdel", Series: []Ser{{"m0", "a"}}, Lo: 1, Hi: 1}, {K: "restart"}}}, "designed")
+	runHist10(o, Desc10{Ops: []Op{w(a1, b1), {K: "snap"}, w(a2, a3), {K: "snapdel", Series: []Ser{{"m0", "a"}}, Lo: 1, Hi: 2}, w(a2), {K: "restart"}}}, "designed")
+	// a snapshot the cache retained after a failed flush: the delete writes it out first
+	runHist10(o, Desc10{Ops: []Op{w(a1, a2), {K: "snapfail"}, delA(1, 1), {K: "restart"}}}, "designed")
+	runHist10(o, Desc10{Ops: []Op{w(a1, a2, b1), {K: "snapfail"}, w(a3), delA(2, 3), {K: "snap"}, {K: "restart"}, w(a2), {K: "restart"}}}, "designed")
+	runHist10(o, Desc10{Ops: []Op{w(a1, a2), {K: "snapfail"}, w(a3), {K: "snapdel", Series: []Ser{{"m0", "a"}}, Lo: 1, Hi: 3}, {K: "restart"}}}, "designed")
+	runHist10(o, Desc10{Ops: []Op{w(a1), {K: "snapfail"}, {K: "snapfail"}, {K: "del", I: 2, Lo: math.MinInt64, Hi: math.MaxInt64}, {K: "restart"}}}, "designed")
 }
 
 func main() {
@@ -1337,7 +1427,7 @@ func main() {
 		case i%10 == 7:
 			runHist10(o, Desc10{Ops: g.overlapFamily()}, "gen")
 		default:
-			runHist10(o, Desc10{Ops: g.history(5+g.r.Intn(9), i%12 == 5)}, "gen")
+			runHist10(o, Desc10{Ops: g.history(5+g.r.Intn(9), i%4 == 1)}, "gen")
 		}
 	}
 }
